@@ -11,9 +11,31 @@ def exec_for(interp, st, env):
     it = interp.ev(st.iter, env)
     if B.is_symbolic_collection(it):
         return it.sym_loop(interp, st, env)
-    items = interp.iterate(it, st.iter)
     broke = False
+    if isinstance(it, list):
+        # CPython iterates a list by index over the LIVE object: removing/inserting during the loop skips/repeats items
+        i = 0
+        while i < len(it):
+            item = it[i]
+            i += 1
+            if i > MAX_UNROLL:
+                raise Unsupported("for loop over a list that keeps growing")
+            interp.assign(st.target, item, env)
+            try:
+                interp.exec_block(st.body, env)
+            except BreakEx:
+                broke = True
+                break
+            except ContinueEx:
+                continue
+        if not broke:
+            interp.exec_block(st.orelse, env)
+        return
+    items = interp.iterate(it, st.iter)
+    n0 = len(it) if isinstance(it, dict) else None
     for item in items:
+        if n0 is not None and len(it) != n0:
+            raise Raised('RuntimeError', st.lineno, 'dictionary changed size during iteration', implicit=True)
         interp.assign(st.target, item, env)
         try:
             interp.exec_block(st.body, env)
@@ -22,6 +44,8 @@ def exec_for(interp, st, env):
             break
         except ContinueEx:
             continue
+    if n0 is not None and not broke and len(it) != n0:
+        raise Raised('RuntimeError', st.lineno, 'dictionary changed size during iteration', implicit=True)
     if not broke:
         interp.exec_block(st.orelse, env)
 
